@@ -70,6 +70,35 @@ def chain_scenario(rnd, n, rtc, is_async):
             "chain": n}
 
 
+def burst_scenario(rnd, n, is_async):
+    """One callback of ``go`` sends n events at once: all of them wait in the queue together and must
+    all be processed, in order, by the same drain."""
+    place = rnd.choice(["after", "on", "before"])
+    prog = {"name": "M0", "module": "simgen_m0", "listeners": ["L0"], "model": {"kind": "attr", "field": "state"},
+            "states": [{"id": "s0", "initial": True, "final": False}, {"id": "s1", "initial": False, "final": False}],
+            "trans": [{"src": "s0", "dst": "s0", "events": ["tick"]},
+                      {"src": "s1", "dst": "s1", "events": ["tick"], "internal": True},
+                      {"src": "s0", "dst": "s1", "events": ["go"]},
+                      {"src": "s1", "dst": "s0", "events": ["go"]}],
+            "events": ["tick", "go"],
+            "cbs": {}}
+    role = rnd.choice(["machine", "model", "L0"])
+    cb = f"{role}.{place}_go"
+    prog["cbs"][cb] = {"group": place, "sig": [gen.P("machine")] if role != "machine" else []}
+    prog["cbs"]["machine.on_transition"] = {"group": "on", "sig": [gen.P("event")]}
+    if is_async:
+        for c in prog["cbs"]:
+            prog["cbs"][c]["async"] = True
+    beh = {f"M0/{cb}": [{"sends": [{"event": "tick"}], "sends_repeat": n, "sends_jlt": 1}],
+           "M0/machine.on_transition": [{"ret": {"$uniq": 1}}]}
+    ops = [{"op": "new", "inst": "A", "prog": 0, "listeners": ["L0"], "rtc": True, "allow": True},
+           {"op": "send", "inst": "A", "event": "go"},
+           {"op": "send", "inst": "A", "event": "tick"}]
+    return {"profile": "C03", "programs": [prog], "beh": beh, "gv": {}, "ops": ops,
+            "driver": rnd.choice(["sync", "inloop"]) if is_async else "sync", "perm_seed": 0,
+            "burst": n}
+
+
 @register
 class C03(Campaign):
     pid = "C03"
@@ -79,7 +108,8 @@ class C03(Campaign):
     quick_runs = 2500
     thorough_runs = 40000
     fault_kinds = ["nested-send@validators|before|exit|on|enter|after", "nested-send@initial-enter (constructor, first event, or explicit activate_initial_state())",
-                   "fan-out (several sends per callback / per transition)", "self-triggering chain (<=5000)",
+                   "fan-out (several sends per callback / per transition)", "burst fan-out (300-2500 events pending at once)",
+                   "self-triggering chain (<=5000)", "nested send from a plain function of an async machine",
                    "async-callback-delay"]
     rule = ("one run = one generated machine in which 1-4 callbacks (any group, machine/model/listener, "
             "including the initial state's enter) send 1-3 nested events each, up to 3 times per "
@@ -94,14 +124,15 @@ class C03(Campaign):
         "machines are tolerant (allow_event_without_transition=True) and fault-free so that a nested "
         "send never fails (failures are C04's subject)",
         "at most one sending callback per group instance (order inside a group is unspecified)",
-        "async machines: nested sends only from coroutine callbacks",
+        "async machines: nested sends from coroutine callbacks, and (30 % of the async runs) from one plain function, "
+        "which cannot await what send() returns: the event is queued by the call itself",
     ]
 
     def knobs(self, rnd, tier):
         return gen.knobs(async_modes=ASYNC_MODES, drivers=["sync", "sync", "inloop"], senders=(1, 4),
                          sends_per=(1, 3), sends_jlt=(1, 3), allow=[True], rtc=[True, True, False],
                          p_validator=0.2, p_unknown_event=0.05, p_ret=0.0, n_ops=(3, 15), p_action=0.45,
-                         p_state_action=0.4, p_conv=0.3)
+                         p_state_action=0.4, p_conv=0.3, p_plain_sender=0.3)
 
     def scenario(self, rnd, tier):
         r = rnd.random()
@@ -113,6 +144,8 @@ class C03(Campaign):
             else:
                 n = rnd.choice([5, 20, 40])
             return chain_scenario(rnd, n, rtc, is_async)
+        if r < 0.08:
+            return burst_scenario(rnd, rnd.choice([300, 1100, 2500]), rnd.random() < 0.4)
         sc = super().scenario(rnd, tier)
         prog = sc["programs"][0]
         if any(m.get("async") for m in prog["cbs"].values()) and rnd.random() < 0.4:
@@ -207,6 +240,12 @@ class C03(Campaign):
         c = {"fault.nested_sends": st.get("sends", 0), "probe.queued_event_executions": m.get("queued_execs", 0),
              "probe.depth_first_nested_executions": m.get("nested_execs", 0),
              "fault.virtual_delays": st.get("delays", 0)}
+        c["fault.nested_send_from_plain_function(async machine)"] = st.get("plain_sends_on_async_machine", 0)
+        if sc.get("burst"):
+            c["probe.bursts"] = 1
+            c["fault.burst_fan_out_events"] = sc["burst"]
+            if sc["burst"] > 1024:
+                c["probe.bursts_gt_1024_pending"] = 1
         if sc.get("chain"):
             c["probe.chains"] = 1
             c["probe.chain_events"] = sc["chain"]
